@@ -131,6 +131,17 @@ class Interp(object):
                     stt = pred_status(st, pairs)
                     if stt is not None:
                         st.tags['pred:' + name] = stt
+        res = self._merge_level(outs, True)
+        if len(res) > 1:
+            res = self._merge_level(res, False)
+        if 1 < len(res) <= 12:
+            res = self._merge_subsume(res)
+        self.max_states = max(self.max_states, len(res))
+        if len(res) > MAX_STATES:
+            raise AnalysisBroken('state explosion (%d) in %s' % (len(res), self.entry_name))
+        return res
+
+    def _merge_level(self, outs, raw):
         groups = {}
         order = []
         # cheap pre-grouping: full signatures are only computed where a merge is possible
@@ -141,29 +152,63 @@ class Interp(object):
         for i, (st, ctl) in enumerate(outs):
             if i in lone:
                 sig = ('lone', i)
-                groups[sig] = [st, ctl]
+                groups[sig] = [st, ctl, False]
                 order.append(sig)
                 continue
             csig = None
             if ctl is not None:
                 if ctl[0] == 'return':
                     v = ctl[1]
-                    csig = ('return', st.canon(v.t) if v is not None else None)
+                    csig = ('return', (v.t if raw else st.canon(v.t)) if v is not None else None)
                 else:
                     csig = ctl
             tr = tuple(st.dom(t) for t in self.tracked)
-            sig = (csig, st.mem_sig(), tr)
+            sig = (csig, st.mem_sig(raw), tr)
             g = groups.get(sig)
             if g is None:
-                groups[sig] = [st, ctl]
+                groups[sig] = [st, ctl, False]
                 order.append(sig)
             else:
+                if not raw and not g[2]:
+                    g[0].rewrite_canon()
+                    if g[1] is not None and g[1][0] == 'return' and g[1][1] is not None:
+                        g[1] = ('return', Val(g[1][1].ty, g[0].canon(g[1][1].t)))
+                    g[2] = True
                 g[0].join_knowledge(st)
-        res = [tuple(groups[s]) for s in order]
-        self.max_states = max(self.max_states, len(res))
-        if len(res) > MAX_STATES:
-            raise AnalysisBroken('state explosion (%d) in %s' % (len(res), self.entry_name))
-        return res
+        return [(groups[s][0], groups[s][1]) for s in order]
+
+    def _merge_subsume(self, outs):
+        """Y is absorbed by X when, under Y's own equalities, X's memory reads the same as Y's:
+        X's (more general) cell terms then also describe Y's paths."""
+        alive = list(outs)
+        changed = True
+        while changed and len(alive) > 1:
+            changed = False
+            for i in range(len(alive)):
+                for j in range(len(alive)):
+                    if i == j:
+                        continue
+                    (X, cx), (Y, cy) = alive[i], alive[j]
+                    if (cx is None) != (cy is None) or (cx is not None and cx[0] != cy[0]):
+                        continue
+                    if X.pre_sig() != Y.pre_sig() or not Y.eq:
+                        continue
+                    if cx is not None and cx[0] == 'return':
+                        vx, vy = cx[1], cy[1]
+                        if (vx is None) != (vy is None):
+                            continue
+                        if vx is not None and Y.canon(vx.t) != Y.canon(vy.t):
+                            continue
+                    if tuple(X.dom(t) for t in self.tracked) != tuple(Y.dom(t) for t in self.tracked):
+                        continue
+                    if X.mem_sig(False, Y) == Y.mem_sig(False):
+                        X.join_knowledge(Y)
+                        del alive[j]
+                        changed = True
+                        break
+                if changed:
+                    break
+        return alive
 
     # ------------------------------------------------------------------ pointers
     def targets(self, st, pt):
